@@ -100,7 +100,7 @@ func (a *An) extractAKE() *akeSkeleton {
 	if sd := a.MustFn("(*Conversation).sendDHCommit"); sd != nil {
 		fld := a.MustField("ake", "state")
 		for _, st := range a.DirectStoresTo(fld) {
-			if st.Parent() == sd {
+			if a.C.within(st, sd) {
 				if mi, ok := st.Val.(*ssa.MakeInterface); ok {
 					sk.queryState = typeName(mi.X.Type())
 				}
@@ -437,6 +437,9 @@ func init() {
 			a.c14Predicates()
 			a.c14ReceiveOrder()
 			a.cipherBuffers("K.cipher-buffers")
+			// the two ways a peer offers versions are read completely (a shared version is not lost on the way)
+			a.c16Whitespace()
+			a.c16QueryParse("V.query-parse")
 		})
 }
 
